@@ -346,3 +346,35 @@ package queue
 //@   requires s != nil && s.db != nil && !txOpen && txPending == 0
 //@   modifies durable, walRequested, syncFullSet, txOpen, txPending
 //@   ensures [C01:durability_pragmas_set_before_use] result == nil ==> walRequested && syncFullSet
+
+// ---- C14: operator mutations by id ----
+
+//@ spec
+//@ pred idSelected(ids []string, id string) := id != "" && exists j int :: 0 <= j && j < len(ids) && trim(ids[j]) == id
+//@ pred cancelable(st State) := st == StateQueued || st == StateLeased || st == StateDead
+//@ pred requeueable(st State) := st == StateDead || st == StateCanceled
+//@ pred resetTo(e *Envelope, st State, now time.Time) := e.State == st && e.LeaseID == "" && e.LeaseUntil == 0 && e.NextRunAt == now && e.DeadReason == "" && e.Attempt == old(e.Attempt) && immutableSame(e)
+
+//@ func (*MemoryStore).CancelMessages
+//@   requires s != nil
+//@   modifies s.leases, Envelope.State, Envelope.LeaseID, Envelope.LeaseUntil, Envelope.NextRunAt, Envelope.DeadReason, storeNow
+//@   loop 1 ghost C set[string] := empty(string) step ite(canceled != pre(canceled) + card(C), add(C, id), C)
+//@   loop 1 ghost which gmap[string]int := _ step ite(id != "" && !(id in preseen), store(which, id, rangeindex), which)
+//@   loop 1 ghost preseen set[string] := empty(string) step dom(seen)
+//@   loop 1 invariant [wf_J3a] J3a(s)
+//@   loop 1 invariant [wf_J3b] J3b(s)
+//@   loop 1 invariant [wf_J4] J4(s)
+//@   loop 1 invariant [wf_J5] J5(s)
+//@   loop 1 invariant [wf_J6] J6(s)
+//@   loop 1 invariant [seen_shape] seen != nil && rangeindex < len(req.IDs) && (forall k string :: k in preseen <==> k in seen) && (forall k string :: k in seen ==> k != "" && 0 <= which[k] && which[k] <= rangeindex && trim(req.IDs[which[k]]) == k)
+//@   loop 1 invariant [seen_complete] forall j int :: 0 <= j && j <= rangeindex && trim(req.IDs[j]) != "" ==> trim(req.IDs[j]) in seen
+//@   loop 1 invariant [partition] forall k string :: k in s.items ==> same(s.items[k]) || (k in seen && old(cancelable(s.items[k].State)) && resetTo(s.items[k], StateCanceled, now))
+//@   loop 1 invariant [seen_processed] forall k string :: k in seen && k in s.items && old(cancelable(s.items[k].State)) ==> s.items[k].State == StateCanceled
+//@   loop 1 invariant [leases] forall l string :: l in s.leases ==> old(l in s.leases) && s.leases[l] == old(s.leases[l])
+//@   loop 1 invariant [leases_dropped] forall l string :: old(l in s.leases) && !(l in s.leases) ==> s.items[old(s.leases[l])].State == StateCanceled && old(s.items[s.leases[l]].State) == StateLeased
+//@   loop 1 invariant [count] canceled == card(C) && (forall k string :: k in C <==> (k in s.items && s.items[k].State != old(s.items[k].State)))
+//@   ensures [C14:only_selected_from_allowed_states] forall k string :: k in s.items ==> same(s.items[k]) || (idSelected(req.IDs, k) && old(cancelable(s.items[k].State)) && resetTo(s.items[k], StateCanceled, storeNow))
+//@   ensures [C14:every_selected_allowed_message_canceled] forall j int :: 0 <= j && j < len(req.IDs) && trim(req.IDs[j]) != "" && trim(req.IDs[j]) in s.items && old(cancelable(s.items[trim(req.IDs[j])].State)) ==> s.items[trim(req.IDs[j])].State == StateCanceled
+//@   ensures [C14:lease_voided] forall l string :: (l in s.leases ==> old(l in s.leases) && s.leases[l] == old(s.leases[l])) && (old(l in s.leases) && !(l in s.leases) ==> s.items[old(s.leases[l])].State == StateCanceled)
+//@   ensures [C14:count_equals_changes] result0.Canceled == card(setof(k string :: k in s.items && s.items[k].State != old(s.items[k].State))) && result0.Matched == result0.Canceled
+//@   ensures [C14:nothing_created_or_removed] result1 == nil
